@@ -8537,10 +8537,8 @@ class TreeSequence:
             )
             # the shapes of out and denominator should be the same except that
             # out may have an extra dimension if indexes is not None
-            if indexes is not None and not isinstance(denominator, float):
-                oshape = list(out.shape)
-                oshape[-1] = 1
-                denominator = denominator.reshape(oshape)
+            if np.ndim(out) == np.ndim(denominator) + 1:
+                denominator = np.asarray(denominator)[..., np.newaxis]
             with np.errstate(divide="ignore", invalid="ignore"):
                 out /= denominator
 
